@@ -1254,16 +1254,52 @@ func (e *FactEngine) newUniverse(req *Formula, body *ast.BlockStmt, target ...as
 				if !ok || len(as.Lhs) != len(as.Rhs) {
 					return true
 				}
+				type cp struct {
+					lc, rc string
+					paths  []string
+				}
+				var cps []cp
 				for i, l := range as.Lhs {
-					if !isPurePath(as.Rhs[i]) || !isPurePath(l) {
+					if !isPurePath(l) {
 						continue
 					}
-					var paths []string
 					lc := strings.TrimPrefix(e.canon(l, sc, nil), "&")
-					rcFull := e.canon(as.Rhs[i], sc, &paths)
-					if strings.HasPrefix(rcFull, "#") || rcFull == "nil" || strings.HasPrefix(rcFull, "&") || lc == "_" {
+					if lc == "_" {
 						continue
 					}
+					if isPurePath(as.Rhs[i]) {
+						var paths []string
+						rcFull := e.canon(as.Rhs[i], sc, &paths)
+						if !(strings.HasPrefix(rcFull, "#") || rcFull == "nil" || strings.HasPrefix(rcFull, "&")) {
+							cps = append(cps, cp{lc, rcFull, paths})
+						}
+						continue
+					}
+					// x := &T{K: y}: a copy into x.K
+					r := ast.Unparen(as.Rhs[i])
+					if ue, ok := r.(*ast.UnaryExpr); ok && ue.Op == token.AND {
+						r = ast.Unparen(ue.X)
+					}
+					if cl, ok := r.(*ast.CompositeLit); ok {
+						if _, isStruct := sc.info.TypeOf(cl).Underlying().(*types.Struct); isStruct {
+							for _, el := range cl.Elts {
+								kv, ok := el.(*ast.KeyValueExpr)
+								if !ok {
+									continue
+								}
+								if k, ok := kv.Key.(*ast.Ident); ok && isPurePath(kv.Value) {
+									var paths []string
+									rcFull := e.canon(kv.Value, sc, &paths)
+									if !(strings.HasPrefix(rcFull, "#") || rcFull == "nil" || strings.HasPrefix(rcFull, "&")) {
+										cps = append(cps, cp{lc + "." + k.Name, rcFull, paths})
+									}
+								}
+							}
+						}
+					}
+				}
+				for _, c := range cps {
+					lc, rcFull, paths := c.lc, c.rc, c.paths
 					var cur []string
 					for a := range m {
 						cur = append(cur, a)
@@ -1275,6 +1311,20 @@ func (e *FactEngine) newUniverse(req *Formula, body *ast.BlockStmt, target ...as
 						}
 						if path, cst, ok := splitEqConst(a); ok && prefixOf(lc, path) {
 							f := e.eqAtom(rcFull+path[len(lc):], cst, paths)
+							if f.k == fAtom {
+								m[f.atom] = true
+							}
+						} else if x, y, ok := splitEqPaths(a); ok && (prefixOf(lc, x) != prefixOf(lc, y)) {
+							if prefixOf(lc, y) {
+								x, y = y, x
+							}
+							ps := append([]string{}, paths...)
+							for _, mnt := range e.mentions[a] {
+								if !prefixOf(lc, mnt) && !prefixOf(mnt, lc) {
+									ps = append(ps, mnt)
+								}
+							}
+							f := e.eqAtom(rcFull+x[len(lc):], y, ps)
 							if f.k == fAtom {
 								m[f.atom] = true
 							}
@@ -2224,36 +2274,7 @@ func (w *walker) assign(lhs ast.Expr, rhs ast.Expr, s vset) vset {
 	if isPurePath(rhs) {
 		rc := strings.TrimPrefix(w.e.canon(rhs, w.sc, nil), "&")
 		if !strings.HasPrefix(rc, "#") && rc != "nil" && !prefixOf(p, rc) && !strings.HasPrefix(w.e.canon(rhs, w.sc, nil), "&") {
-			// … and x equals y
-			for i, a := range w.u.atoms {
-				if a == "eq("+p+","+rc+")" || a == "eq("+rc+","+p+")" {
-					s = w.u.assume(s, i, true)
-				}
-			}
-			for i, a := range w.u.atoms {
-				src := ""
-				if path, cst, ok := splitEqConst(a); ok && prefixOf(p, path) {
-					src = "eq(" + rc + path[len(p):] + "," + cst + ")"
-				} else if strings.HasPrefix(a, "eq(") && strings.HasSuffix(a, ",nil)") {
-					if path := a[3 : len(a)-5]; prefixOf(p, path) {
-						src = "eq(" + rc + path[len(p):] + ",nil)"
-					}
-				}
-				if src == "" {
-					continue
-				}
-				j, ok := w.u.idx[src]
-				if !ok {
-					continue
-				}
-				ns := newVset(len(w.u.atoms))
-				for v := 0; v < 1<<uint(len(w.u.atoms)); v++ {
-					if s.has(v) && (v>>uint(i))&1 == (v>>uint(j))&1 {
-						ns.set(v)
-					}
-				}
-				s = ns
-			}
+			s = w.copyPath(s, p, rc)
 		}
 	}
 	// a fresh struct literal: every field not named in it holds its zero value
@@ -2282,6 +2303,33 @@ func (w *walker) assign(lhs ast.Expr, rhs ast.Expr, s vset) vset {
 						return "", false
 					}
 					return rest, !keyed[rest]
+				}
+				// … and every field named with a pure path (or a constant) holds that value
+				if !positional {
+					for _, el := range cl.Elts {
+						kv := el.(*ast.KeyValueExpr)
+						k, isId := kv.Key.(*ast.Ident)
+						if !isId {
+							continue
+						}
+						pk := p + "." + k.Name
+						full := w.e.canon(kv.Value, w.sc, nil)
+						vc := strings.TrimPrefix(full, "&")
+						switch {
+						case strings.HasPrefix(full, "#") || full == "nil":
+							for i, a := range w.u.atoms {
+								if path, c, ok := splitEqConst(a); ok && path == pk {
+									s = w.u.assume(s, i, c == full)
+								} else if a == "eq("+pk+",nil)" {
+									s = w.u.assume(s, i, full == "nil")
+								} else if a == pk && (full == "#true" || full == "#false") {
+									s = w.u.assume(s, i, full == "#true")
+								}
+							}
+						case isPurePath(kv.Value) && !strings.HasPrefix(full, "&") && !prefixOf(p, vc):
+							s = w.copyPath(s, pk, vc)
+						}
+					}
 				}
 				if !positional {
 					for i, a := range w.u.atoms {
@@ -2389,6 +2437,87 @@ func (w *walker) assign(lhs ast.Expr, rhs ast.Expr, s vset) vset {
 			tt, _ := w.u.may(post)
 			s = s.and(tt)
 		}
+	}
+	return s
+}
+
+// splitEqPaths splits a path-path equality atom eq(x,y) (neither side a constant or nil).
+func splitEqPaths(a string) (x, y string, ok bool) {
+	if !strings.HasPrefix(a, "eq(") || !strings.HasSuffix(a, ")") {
+		return
+	}
+	body := a[3 : len(a)-1]
+	depth := 0
+	for i := 0; i < len(body); i++ {
+		switch body[i] {
+		case '(', '[':
+			depth++
+		case ')', ']':
+			depth--
+		case ',':
+			if depth == 0 {
+				x, y = body[:i], body[i+1:]
+				if strings.HasPrefix(y, "#") || y == "nil" || strings.HasPrefix(x, "#") || x == "nil" {
+					return "", "", false
+				}
+				return x, y, true
+			}
+		}
+	}
+	return
+}
+
+// eqName is the spelling eqAtom gives the equality of two paths ("" when they are one path).
+func eqName(a, b string) string {
+	if a == b {
+		return ""
+	}
+	if a > b {
+		a, b = b, a
+	}
+	return "eq(" + a + "," + b + ")"
+}
+
+// copyPath: after x = y (x's old atoms already forgotten) x equals y, and every atom over x·σ holds
+// exactly when its twin over y·σ does — against constants, nil and other paths.
+func (w *walker) copyPath(s vset, p, rc string) vset {
+	for i, a := range w.u.atoms {
+		if a == "eq("+p+","+rc+")" || a == "eq("+rc+","+p+")" {
+			s = w.u.assume(s, i, true)
+		}
+	}
+	for i, a := range w.u.atoms {
+		src := ""
+		if path, cst, ok := splitEqConst(a); ok && prefixOf(p, path) {
+			src = "eq(" + rc + path[len(p):] + "," + cst + ")"
+		} else if strings.HasPrefix(a, "eq(") && strings.HasSuffix(a, ",nil)") {
+			if path := a[3 : len(a)-5]; prefixOf(p, path) {
+				src = "eq(" + rc + path[len(p):] + ",nil)"
+			}
+		} else if x, y, ok := splitEqPaths(a); ok && (prefixOf(p, x) != prefixOf(p, y)) {
+			if prefixOf(p, y) {
+				x, y = y, x
+			}
+			src = eqName(rc+x[len(p):], y)
+			if src == "" {
+				s = w.u.assume(s, i, true)
+				continue
+			}
+		}
+		if src == "" || src == a {
+			continue
+		}
+		j, ok := w.u.idx[src]
+		if !ok {
+			continue
+		}
+		ns := newVset(len(w.u.atoms))
+		for v := 0; v < 1<<uint(len(w.u.atoms)); v++ {
+			if s.has(v) && (v>>uint(i))&1 == (v>>uint(j))&1 {
+				ns.set(v)
+			}
+		}
+		s = ns
 	}
 	return s
 }
